@@ -17,9 +17,13 @@
 #ifndef VF_CV_BIG_BLOCK
 #define VF_CV_BIG_BLOCK 512
 #endif
+static size_t vfCvLastRequest;  // size of the most recent request (for layout checks)
+static size_t vfCvRequests;     // number of requests so far
 namespace dispenso {
 namespace detail {
 inline void* vfModelAlignedMalloc(size_t bytes, size_t /*alignment*/) {
+  vfCvLastRequest = bytes;
+  ++vfCvRequests;
   if (bytes <= VF_CV_SMALL_BLOCK) {
     return ::malloc(VF_CV_SMALL_BLOCK);
   }
